@@ -158,7 +158,7 @@ fn main() {
         }
         // (4) seeded random generating sets: 1-3 words of length 1-6
         let mut rng = ctx.rng(1100 + gi as u64);
-        let nrand = if th { 400 } else { 40 };
+        let nrand = if th { 600 } else { 100 };
         for _ in 0..nrand {
             let k = 1 + rng.below(3);
             let subs: Vec<Vec<isize>> = (0..k).map(|_| random_word(&mut rng, g.nr_gens, 6)).collect();
